@@ -756,6 +756,12 @@ func c09Apply(fx *c09Fixture, c *c09Case) *channelLink {
 		BaseFee:       lnwire.MilliSatoshi(c.Base),
 		FeeRate:       lnwire.MilliSatoshi(c.Rate),
 		TimeLockDelta: c.Delta,
+		// The inbound fee that applies is the one of the *incoming*
+		// channel, passed as an argument. The outgoing link's own
+		// inbound fee is a decoy that always differs from it.
+		InboundFee: models.InboundFee{
+			Base: ^c.InBase, Rate: ^c.InRate,
+		},
 	}
 	l.cfg.OutgoingCltvRejectDelta = c.Reject
 	l.cfg.MaxOutgoingCltvExpiry = c.MaxCltv
@@ -1113,5 +1119,86 @@ func TestVerifC09RefVectors(t *testing.T) {
 				tv.Violated, b.want&bigref.TransitRules)
 		}
 		st.Case(vstats.FP("rule", b.name), true, []string{"ref_vector"}, nil)
+	}
+}
+
+// TestVerifC09Pinned runs a few hand-written inputs through the real link and
+// the reference: the minimal reproductions of finding F8 (int64 overflow in
+// InboundFee.CalcFee, fixed in lnd commit d38ca3d) and one plain case per
+// verdict, so that these stay covered whatever the random generator does.
+func TestVerifC09Pinned(t *testing.T) {
+	fx := newC09Fixture(t)
+	st := vstats.New("TestVerifC09Pinned")
+	defer st.Flush()
+
+	base := c09Case{
+		Mode: "pinned", Link: 2, BW: fx.bw[2], Min: 1000, Base: 1000,
+		Rate: 100, Delta: 40, Reject: 13, MaxCltv: 2016,
+		Height: 800_000, InExp: 800_100, OutExp: 800_050,
+	}
+	type pin struct {
+		name   string
+		mut    func(c *c09Case)
+		accept bool
+	}
+	pins := []pin{
+		// F8, money-losing direction: zero fee paid, +1000% inbound
+		// fee demanded; the product 1e7 * 922.4e9 exceeds 2^63.
+		{"f8_surcharge_wraps_negative", func(c *c09Case) {
+			c.InAmt, c.OutAmt = 922_400_000_000, 922_400_000_000
+			c.InRate = 10_000_000
+		}, false},
+		{"f8_surcharge_maxint32", func(c *c09Case) {
+			c.InAmt, c.OutAmt = 950_000_000_000, 950_000_000_000
+			c.InRate = math.MaxInt32
+		}, false},
+		// F8, other direction: -1000% discount makes every fee
+		// sufficient.
+		{"f8_discount_wraps_positive", func(c *c09Case) {
+			c.InAmt, c.OutAmt = 922_400_000_000, 922_400_000_000
+			c.InRate = -10_000_000
+		}, true},
+		{"f8_shrunk_counterexample", func(c *c09Case) {
+			c.InAmt, c.OutAmt = 989_987_184_000, 989_987_184_000
+			c.Min, c.Base, c.Rate = 989_987_184_000, 0, 0
+			c.InRate = math.MinInt32
+		}, true},
+		// Just below the overflow threshold both ways.
+		{"below_threshold_surcharge", func(c *c09Case) {
+			c.InAmt, c.OutAmt = 922_000_000_000, 922_000_000_000
+			c.InRate = 10_000_000
+		}, false},
+		{"plain_exact_fee", func(c *c09Case) {
+			c.OutAmt = 1_000_000
+			c.InAmt = 1_000_000 + 1000 + 100
+		}, true},
+		{"plain_fee_minus_one", func(c *c09Case) {
+			c.OutAmt = 1_000_000
+			c.InAmt = 1_000_000 + 1000 + 99
+		}, false},
+	}
+	for _, p := range pins {
+		c := base
+		p.mut(&c)
+		l := c09Apply(fx, &c)
+		got := l.CheckHtlcForward(
+			[32]byte{3}, lnwire.MilliSatoshi(c.InAmt),
+			lnwire.MilliSatoshi(c.OutAmt), c.InExp, c.OutExp,
+			models.InboundFee{Base: c.InBase, Rate: c.InRate},
+			c.Height, lnwire.ShortChannelID{}, nil,
+		)
+		ref := bigref.CheckForward(c.policy(), c.limits(), c.forward())
+		if ref.OK() != p.accept {
+			t.Fatalf("pinned %s: reference says %v, hand-computed "+
+				"expectation is accept=%v", p.name, ref.Violated,
+				p.accept)
+		}
+		labels, bad := c09Judge(&c, got, &ref, bigref.ForwardRules)
+		st.Case(vstats.FP("pin", p.name), true,
+			append(labels, "pinned:"+p.name), nil)
+		if bad != "" {
+			t.Fatalf("C09 CheckHtlcForward (pinned %s): %s\ncase: %+v",
+				p.name, bad, c)
+		}
 	}
 }
